@@ -94,11 +94,14 @@ theorem content_step {cmp : κ → κ → Ordering} (hc : TotalPreorder cmp) (ba
 
 variable [BEq κ] [BEq ν] [Inhabited κ]
 
-/-- every flush yields a tree holding the edited content (discharged by `C11.applyMutations_wf`
-under the hypotheses of the tree-level theorem) -/
-def FlushRefines (C : Cfg σ κ ν) (cmp : κ → κ → Ordering) : Prop :=
-  ∀ (tr t' : Tree κ ν) (es : Edits κ ν), Sorted cmp tr.flatten → es.Pairwise (fun a b => cmp a.1 b.1 = .lt) →
-    applyMutations C cmp tr es = .ok t' → t'.flatten = applyEdits cmp tr.flatten es
+/-- every flush of a tree satisfying the tree invariant `P` yields a tree that holds the edited
+content and satisfies `P` again.  (`P` = "bulk-built, NoOverflowBoundary": discharged by
+`C11.applyMutations_wf`; the statement for `P` = "well formed" is true of the model but not
+proved here.) -/
+def FlushRefines (C : Cfg σ κ ν) (cmp : κ → κ → Ordering) (P : Tree κ ν → Prop) : Prop :=
+  ∀ (tr t' : Tree κ ν) (es : Edits κ ν), P tr → Sorted cmp tr.flatten →
+    es.Pairwise (fun a b => cmp a.1 b.1 = .lt) →
+    applyMutations C cmp tr es = .ok t' → t'.flatten = applyEdits cmp tr.flatten es ∧ P t'
 
 /-- the run never takes a checkpoint of an empty pending list and never reverts without a
 checkpoint or on a list shared with the stash — the two shapes of the known findings -/
@@ -112,23 +115,25 @@ def SafeRun (C : Cfg σ κ ν) (cmp : κ → κ → Ordering) : MutMap κ ν →
     | .ok m' => SafeRun C cmp m' seen os
     | .error _ => True
 
-structure MInv (cmp : κ → κ → Ordering) (m : MutMap κ ν) (d : Dict κ ν) (seen : Bool) : Prop where
+structure MInv (cmp : κ → κ → Ordering) (P : Tree κ ν → Prop) (m : MutMap κ ν) (d : Dict κ ν) (seen : Bool) : Prop where
+  goodTree : P m.tree
   sortedTree : Sorted cmp m.tree.flatten
   cur : applyEdits cmp m.tree.flatten (viewL cmp m.edits.log) = d.cur
   cpLe : m.edits.cp ≤ m.edits.log.length
   aliasCp : m.aliased = true → 0 < m.edits.cp
   unseen : seen = false → m.edits.cp = 0 ∧ m.stash = none ∧ m.aliased = false
   stashOk : ∀ s, m.stash = some s → m.aliased = false →
-    m.edits.cp = 0 ∧ Sorted cmp s.1.flatten ∧ 0 < s.2.cp ∧ s.2.log.length = s.2.cp ∧
+    m.edits.cp = 0 ∧ P s.1 ∧ Sorted cmp s.1.flatten ∧ 0 < s.2.cp ∧ s.2.log.length = s.2.cp ∧
     (seen = true → applyEdits cmp s.1.flatten (viewL cmp s.2.log) = d.cp)
   liveOk : seen = true → (m.stash = none ∨ m.aliased = true) →
     0 < m.edits.cp ∧ applyEdits cmp m.tree.flatten (viewL cmp (m.edits.log.take m.edits.cp)) = d.cp
 
 /-- appending to the pending list (put or delete, no flush) -/
-theorem MInv.append {cmp : κ → κ → Ordering} (hc : TotalPreorder cmp) {m : MutMap κ ν} {d : Dict κ ν} {seen : Bool}
-    (h : MInv cmp m d seen) (e : κ × Option ν) (stash' : Option (Tree κ ν × EditLog κ ν))
+theorem MInv.append {cmp : κ → κ → Ordering} {P : Tree κ ν → Prop} (hc : TotalPreorder cmp) {m : MutMap κ ν} {d : Dict κ ν} {seen : Bool}
+    (h : MInv cmp P m d seen) (e : κ × Option ν) (stash' : Option (Tree κ ν × EditLog κ ν))
     (hst : m.aliased = false → stash' = m.stash) (hst' : stash' = none → m.stash = none) :
-    MInv cmp { m with edits := m.edits.put e.1 e.2, stash := stash' } { d with cur := upd cmp d.cur e } seen where
+    MInv cmp P { m with edits := m.edits.put e.1 e.2, stash := stash' } { d with cur := upd cmp d.cur e } seen where
+  goodTree := h.goodTree
   sortedTree := h.sortedTree
   cur := by
     show applyEdits cmp m.tree.flatten (viewL cmp (m.edits.log ++ [(e.1, e.2)])) = _
@@ -154,9 +159,9 @@ theorem MInv.append {cmp : κ → κ → Ordering} (hc : TotalPreorder cmp) {m :
     rw [List.take_append_of_le_length h.cpLe]; exact h2
 
 /-- `flushPending`: the presented content does not change, the checkpoint moves into the stash -/
-theorem MInv.flush {C : Cfg σ κ ν} {cmp : κ → κ → Ordering} (hc : TotalPreorder cmp) (hf : FlushRefines C cmp)
-    {m m' : MutMap κ ν} {d : Dict κ ν} {seen : Bool} (h : MInv cmp m d seen)
-    (hfl : m.flush C cmp = .ok m') : MInv cmp m' d seen := by
+theorem MInv.flush {C : Cfg σ κ ν} {cmp : κ → κ → Ordering} {P : Tree κ ν → Prop} (hc : TotalPreorder cmp) (hf : FlushRefines C cmp P)
+    {m m' : MutMap κ ν} {d : Dict κ ν} {seen : Bool} (h : MInv cmp P m d seen)
+    (hfl : m.flush C cmp = .ok m') : MInv cmp P m' d seen := by
   unfold MutMap.flush at hfl
   simp only [bind, Except.bind, pure, Except.pure] at hfl
   cases hmat : m.materialize C cmp with
@@ -165,11 +170,10 @@ theorem MInv.flush {C : Cfg σ κ ν} {cmp : κ → κ → Ordering} (hc : Total
     rw [hmat] at hfl
     simp only [Except.ok.injEq] at hfl
     have hview := viewL_sorted (ν := ν) hc m.edits.log
-    have htf : t'.flatten = d.cur := by
-      have := hf m.tree t' _ h.sortedTree hview hmat
-      rw [this]; exact h.cur
+    obtain ⟨hfl', hP'⟩ := hf m.tree t' _ h.goodTree h.sortedTree hview hmat
+    have htf : t'.flatten = d.cur := by rw [hfl']; exact h.cur
     have hts : Sorted cmp t'.flatten := by
-      rw [hf m.tree t' _ h.sortedTree hview hmat]
+      rw [hfl']
       exact applyEdits_sorted hc _ _ h.sortedTree hview
     by_cases hcp : 0 < m.edits.cp
     · -- a checkpoint is pending: it moves into the stash
@@ -190,6 +194,7 @@ theorem MInv.flush {C : Cfg σ κ ν} {cmp : κ → κ → Ordering} (hc : Total
       simp only [hhas, if_true, Bool.false_eq_true, if_false] at hfl
       subst hfl
       exact {
+        goodTree := hP'
         sortedTree := hts
         cur := by show applyEdits cmp t'.flatten (viewL cmp []) = d.cur; exact htf
         cpLe := Nat.le_refl _
@@ -198,7 +203,7 @@ theorem MInv.flush {C : Cfg σ κ ν} {cmp : κ → κ → Ordering} (hc : Total
         stashOk := fun s hs _ => by
           simp only [Option.some.injEq] at hs
           subst hs
-          refine ⟨rfl, h.sortedTree, hcp, ?_, fun _ => hlive⟩
+          refine ⟨rfl, h.goodTree, h.sortedTree, hcp, ?_, fun _ => hlive⟩
           show (m.edits.log.take m.edits.cp).length = m.edits.cp
           rw [List.length_take]; exact Nat.min_eq_left h.cpLe
         liveOk := fun _ hor' => by
@@ -214,14 +219,15 @@ theorem MInv.flush {C : Cfg σ κ ν} {cmp : κ → κ → Ordering} (hc : Total
       simp only [hhas, Bool.false_eq_true, if_false, hal] at hfl
       subst hfl
       exact {
+        goodTree := hP'
         sortedTree := hts
         cur := by show applyEdits cmp t'.flatten (viewL cmp []) = d.cur; exact htf
         cpLe := Nat.le_refl _
         aliasCp := fun ha => by have hx : (false : Bool) = true := ha; cases hx
         unseen := fun hs => ⟨rfl, (h.unseen hs).2.1, rfl⟩
         stashOk := fun s hs _ => by
-          obtain ⟨_, h2, h3, h4, h5⟩ := h.stashOk s hs hal
-          exact ⟨rfl, h2, h3, h4, h5⟩
+          obtain ⟨_, h0, h2, h3, h4, h5⟩ := h.stashOk s hs hal
+          exact ⟨rfl, h0, h2, h3, h4, h5⟩
         liveOk := fun hseen hor' => by
           have hor : m.stash = none ∨ m.aliased = true := by
             rcases hor' with h1 | h1
@@ -230,9 +236,10 @@ theorem MInv.flush {C : Cfg σ κ ν} {cmp : κ → κ → Ordering} (hc : Total
           have := (h.liveOk hseen hor).1
           omega }
 
-theorem MInv.checkpoint {cmp : κ → κ → Ordering} {m : MutMap κ ν} {d : Dict κ ν} {seen : Bool}
-    (h : MInv cmp m d seen) (hne : m.edits.log ≠ []) :
-    MInv cmp m.checkpoint { d with cp := d.cur } true where
+theorem MInv.checkpoint {cmp : κ → κ → Ordering} {P : Tree κ ν → Prop} {m : MutMap κ ν} {d : Dict κ ν} {seen : Bool}
+    (h : MInv cmp P m d seen) (hne : m.edits.log ≠ []) :
+    MInv cmp P m.checkpoint { d with cp := d.cur } true where
+  goodTree := h.goodTree
   sortedTree := h.sortedTree
   cur := h.cur
   cpLe := Nat.le_refl _
@@ -244,15 +251,16 @@ theorem MInv.checkpoint {cmp : κ → κ → Ordering} {m : MutMap κ ν} {d : D
     show applyEdits cmp m.tree.flatten (viewL cmp (m.edits.log.take m.edits.log.length)) = d.cur
     rw [List.take_length]; exact h.cur
 
-theorem MInv.revert {cmp : κ → κ → Ordering} {m : MutMap κ ν} {d : Dict κ ν}
-    (h : MInv cmp m d true) (hal : m.aliased = false) :
-    MInv cmp m.revert { d with cur := d.cp } true := by
+theorem MInv.revert {cmp : κ → κ → Ordering} {P : Tree κ ν → Prop} {m : MutMap κ ν} {d : Dict κ ν}
+    (h : MInv cmp P m d true) (hal : m.aliased = false) :
+    MInv cmp P m.revert { d with cur := d.cp } true := by
   unfold MutMap.revert
   cases hst : m.stash with
   | some s =>
-    obtain ⟨_, h2, h3, h4, h5⟩ := h.stashOk s hst hal
+    obtain ⟨_, h0, h2, h3, h4, h5⟩ := h.stashOk s hst hal
     simp only
     exact {
+      goodTree := h0
       sortedTree := h2
       cur := h5 rfl
       cpLe := by show s.2.cp ≤ s.2.log.length; omega
@@ -267,6 +275,7 @@ theorem MInv.revert {cmp : κ → κ → Ordering} {m : MutMap κ ν} {d : Dict 
     obtain ⟨h1, h2⟩ := h.liveOk rfl (Or.inl hst)
     simp only
     exact {
+      goodTree := h.goodTree
       sortedTree := h.sortedTree
       cur := h2
       cpLe := by
@@ -280,9 +289,9 @@ theorem MInv.revert {cmp : κ → κ → Ordering} {m : MutMap κ ν} {d : Dict 
         show applyEdits cmp m.tree.flatten (viewL cmp ((m.edits.log.take m.edits.cp).take m.edits.cp)) = d.cp
         rw [List.take_take, Nat.min_self]; exact h2 }
 
-theorem MInv.put {C : Cfg σ κ ν} {cmp : κ → κ → Ordering} (hc : TotalPreorder cmp) (hf : FlushRefines C cmp)
-    {m m' : MutMap κ ν} {d : Dict κ ν} {seen : Bool} (h : MInv cmp m d seen) (k : κ) (v : ν)
-    (hp : m.put C cmp k v = .ok m') : MInv cmp m' { d with cur := SortedDict.insert cmp d.cur k v } seen := by
+theorem MInv.put {C : Cfg σ κ ν} {cmp : κ → κ → Ordering} {P : Tree κ ν → Prop} (hc : TotalPreorder cmp) (hf : FlushRefines C cmp P)
+    {m m' : MutMap κ ν} {d : Dict κ ν} {seen : Bool} (h : MInv cmp P m d seen) (k : κ) (v : ν)
+    (hp : m.put C cmp k v = .ok m') : MInv cmp P m' { d with cur := SortedDict.insert cmp d.cur k v } seen := by
   have happ := MInv.append hc h (k, some v)
     (if m.aliased then m.stash.map (fun s => (s.1, s.2.put k (some v))) else m.stash)
     (fun ha => by simp [ha])
@@ -298,9 +307,9 @@ theorem MInv.put {C : Cfg σ κ ν} {cmp : κ → κ → Ordering} (hc : TotalPr
   · simp only [Except.ok.injEq] at hp
     rw [← hp]; exact happ
 
-theorem MInv.delete {cmp : κ → κ → Ordering} (hc : TotalPreorder cmp)
-    {m : MutMap κ ν} {d : Dict κ ν} {seen : Bool} (h : MInv cmp m d seen) (k : κ) :
-    MInv cmp (m.delete k) { d with cur := SortedDict.erase cmp d.cur k } seen := by
+theorem MInv.delete {cmp : κ → κ → Ordering} {P : Tree κ ν → Prop} (hc : TotalPreorder cmp)
+    {m : MutMap κ ν} {d : Dict κ ν} {seen : Bool} (h : MInv cmp P m d seen) (k : κ) :
+    MInv cmp P (m.delete k) { d with cur := SortedDict.erase cmp d.cur k } seen := by
   have happ := MInv.append hc h (k, none)
     (if m.aliased then m.stash.map (fun s => (s.1, s.2.put k none)) else m.stash)
     (fun ha => by simp [ha])
@@ -312,9 +321,9 @@ theorem MInv.delete {cmp : κ → κ → Ordering} (hc : TotalPreorder cmp)
   exact happ
 
 /-- the state-machine induction -/
-theorem mutable_run_refines {C : Cfg σ κ ν} {cmp : κ → κ → Ordering} (hc : TotalPreorder cmp) (hf : FlushRefines C cmp) :
+theorem mutable_run_refines {C : Cfg σ κ ν} {cmp : κ → κ → Ordering} {P : Tree κ ν → Prop} (hc : TotalPreorder cmp) (hf : FlushRefines C cmp P) :
     ∀ (ops : List (MOp κ ν)) (m m' : MutMap κ ν) (d : Dict κ ν) (seen : Bool),
-      MInv cmp m d seen → SafeRun C cmp m seen ops → m.run C cmp ops = .ok m' →
+      MInv cmp P m d seen → SafeRun C cmp m seen ops → m.run C cmp ops = .ok m' →
       applyEdits cmp m'.tree.flatten (viewL cmp m'.edits.log) = (ops.foldl (Dict.step cmp) d).cur
   | [], m, m', d, seen, h, _, hr => by
     simp only [MutMap.run, Except.ok.injEq] at hr
